@@ -55,6 +55,72 @@ CHECKS = {
         "Trusted: truth-table and set oracles; index-wise reading of 'residuals coincide'; clause lists <= 3 clauses over 3 variables (+ 2 over 4 in thorough).",
         "DESIGN.md §3 C15",
     ),
+    "C03": (
+        "bounded exhaustive operation-history exploration of the real SDD builder against a truth-table reference model (all functions of 3 variables x all 12 vtrees x compression on/off in long-lived builders; stride slices over 4 variables x 120 vtrees)",
+        "Every operation of the alphabet is issued on the real CompressionSddBuilder over all argument combinations of the stated pools for every vtree shape and labelling with compression on and off; each result and periodically every earlier result is compared with the truth-table definition.",
+        "Trusted: truth tables read through BinarySDD::{label,low,high} and SddOr::iter; all pairs only for n <= 3; n = 4 by stride.",
+        "DESIGN.md §3 C03",
+    ),
+    "C04": (
+        "exhaustive walk of every node reachable from every result of the SDD operation histories (compression on) against the vtree normal form recomputed from truth tables; truth-table->pointer canonicity map",
+        "For every result of the C03 histories with compression on, every reachable decision node is checked: primes non-false, exclusive, exhaustive, on the left side of the node's vtree position; subs on the right side and pairwise distinct; not trimmable; one pointer per function.",
+        "Trusted: truth tables and vtree sides recomputed by the harness from the vtree value.",
+        "DESIGN.md §3 C04",
+    ),
+    "C05": (
+        "exhaustive input-space enumeration (clause sequences, expression trees, plan trees) x all orders x all vtrees x all partial models on the real bottom-up compilers, direct-evaluation oracle",
+        "Every CNF (as a sequence of clause types incl. empty/unit/tautological/duplicate clauses, repeated literals, >20 clauses), every expression tree up to a size bound and every dtree plan / small plan tree is compiled with the BDD builder under every order and the SDD builder under every vtree (incl. dtree-derived); models are compared with direct evaluation and compile-under-assignment with compile-then-condition for all 3^n partial models.",
+        "Trusted: clause/expression evaluators of the harness; bounds <= 3 clauses over 3 variables (+ slices), expressions <= 2 (3) connectives.",
+        "DESIGN.md §3 C05",
+    ),
+    "C07": (
+        "exhaustive input-space enumeration: every function x every representation (BDD orders, SDD vtrees, top-down orders x stores, both polarities) x 10 semiring instances x full weight products, brute-force semiring sum in independent exact arithmetic",
+        "unsmoothed_wmc and evaluate of every diagram are compared with the sum over models computed by the harness's own arithmetic for each semiring; BDDs with unnormalised weights against the depends-on recursion.",
+        "Trusted: oracle arithmetic (shared reference mulmod with C13); exactly representable weight alphabets; polynomials compared coefficient-wise.",
+        "DESIGN.md §3 C07",
+    ),
+    "C10": (
+        "explicit-state exploration of all query sequences up to depth 2 (3) over pools of node-sharing diagrams; reference = the same query on a freshly built copy; inductive invariant 'all scratch empty' checked on every reachable node after every call",
+        "Every sequence of queries (16 BDD kinds, 8 SDD kinds, 7 decision-DNNF kinds, each on any pool member) is executed in a builder whose pool shares nodes; every answer must equal the fresh-builder answer and no node reachable from the pool may keep scratch data.",
+        "Trusted: answers compared as bit-exact strings; pools are a rule-defined family of function pairs for n in {3,4}.",
+        "DESIGN.md §3 C10",
+    ),
+    "C11": (
+        "exhaustive enumeration of functions x representations x construction histories x primes against the defining sum (independent modular arithmetic); operation histories of the semantic-hash builders against truth tables",
+        "semantic_hash and cached_semantic_hash of every diagram equal the defining sum and one-minus for negations; the semantic SDD builder is swept over all functions/pairs of 3 variables on all vtrees (and/or/negate/condition/exists, eq vs function equality); CNFs are compiled with both semantic builders.",
+        "Trusted: reference mulmod; the shipped seed; injectivity is demanded only over the 64-bit field.",
+        "DESIGN.md §3 C11",
+    ),
+    "C12": (
+        "exhaustive input-space enumeration: every function x order x ordered query list x weight product; oracle = exhaustive maximisation from the truth table in exact dyadic arithmetic",
+        "marginal_map, bb<Real>, meu and bb<ExpectedUtility> are run on every instance; the returned value must be the true maximum and the returned assignment must assign exactly the query variables and attain it.",
+        "Trusted: depends-on count recursion; dyadic weight alphabets; MEU precondition (utilities only after all decisions) built into the enumeration.",
+        "DESIGN.md §3 C12",
+    ),
+    "C16": (
+        "explicit-state BFS to closure over insert/get sequences of the real Lru with explicit colliding hashes vs a map model; lock-step differential of lossy-cache vs cache-everything BDD builders over the exhaustive histories; warm-vs-cold differential of SDD results",
+        "Every reachable Lru state for every key->hash map of the family and capacities 2^0..2^2 is visited; every BDD sweep operation on lossy builders must return a structurally identical diagram; a slice of SDD operations is repeated in cold builders.",
+        "Trusted: map model; verif_dump hook for the canonical key only.",
+        "DESIGN.md §3 C16",
+    ),
+    "C17": (
+        "exhaustive input-space enumeration of CNF texts (4 layouts), s-expressions and diagrams/vtrees; independent writer, reader and evaluators",
+        "Every text is parsed by the real parsers and its models compared with the harness's evaluation under the documented numbering; every diagram and vtree is serialised to JSON and read back by the harness's own node-table reader.",
+        "Trusted: harness writer/reader/evaluators; bounds as C05.",
+        "DESIGN.md §3 C17",
+    ),
+    "C18": (
+        "bounded exhaustive call-history exploration through the real exported C symbols in lock step with native calls and a truth-table oracle",
+        "All functions of <= 3 variables are built through the C API, all pairs combined, every handle observed through every exported observer and compared with the native builder; all other exported constructors are exercised on every small CNF.",
+        "Trusted: extern declarations in the harness match the exported signatures (a mismatch shows up as a crash or a wrong value).",
+        "DESIGN.md §3 C18",
+    ),
+    "C19": (
+        "exhaustive input-space enumeration with one subprocess of the real binaries per case; brute-force counts and the harness's JSON reader as oracle",
+        "Every formula up to the size bound is run through weighted_model_count under weight products and every configured order, and through the two converters; printed counts must equal the brute-force values exactly and emitted JSON must denote the input.",
+        "Trusted: exact decimal round trip of f64 printing on the weight alphabet; dev-profile binaries built from the working tree.",
+        "DESIGN.md §3 C19",
+    ),
 }
 
 NOT_YET = "check not built yet in this round (planned in DESIGN.md §3); not claimed until it exists"
